@@ -14,6 +14,11 @@ arguments must be released at once (the drop sits in a `finally`); the harness c
 exception when the failing call has left `process`, because frames reachable from a traceback (BoundCall.run's frame
 holds the argument values) are outside the model and the engine keeps the first error of a run until the end.
 
+"As soon as" is taken literally in a third of the runs: the cyclic collector is disabled for the whole run and the census
+collects nothing, so a result pinned only by an (unreachable) reference cycle - e.g. exception -> traceback -> frame ->
+exception in a retry wrapper - shows as alive; those runs use an integer retry and calls whose first attempts raise and a
+later one succeeds (a successful run).  The referrer paths of the pinned object are recorded for the report.
+
 Excluded on purpose (outside the model, see Props/C16.lean): what tracebacks / frames of ordinary failing functions
 pin, call functions or stores that keep their arguments, progress observers, retry wrappers on failing calls.
 """
@@ -41,6 +46,8 @@ ASSUMPTIONS = [
     "(first_node_error.__cause__.__traceback__), so with the traceback intact the arguments of the first failing call stay "
     "referenced until then.  Frames and tracebacks are outside the Refs model (C16 is PARTIAL); the exception objects "
     "themselves are left in place",
+    "strict runs (cyclic collector disabled, no collection in the census): reference counting alone must free a result once "
+    "its last consumer has finished - an unreachable cycle that still pins it counts as 'not released as soon as ...'",
     "failing runs use retry=None (a retry wrapper's frame would hold the arguments in the traceback) and progress=None; "
     "after a failing run the raised CallError is dropped before the final census (its traceback references run_physical's frame)",
 ]
@@ -123,7 +130,17 @@ def gen_case(rng, tier):
         consumers = [nd["id"] for nd in spec["nodes"] if nd["kind"] == "call" and (nd["args"] or nd["kwargs"])]
         pool = consumers if consumers and rng.random() < 0.8 else calls
         failing = sorted(rng.sample(pool, min(len(pool), rng.choice([1, 1, 2, 3]))))
-    return {"spec": spec, "output": out, "registered": reg,
+    strict, retry, flaky = False, None, {}
+    if not failing and rng.random() < 0.35:
+        # "as soon as": no cyclic collection at all during the run (gc disabled, census without gc.collect()), with an
+        # integer retry and consumers whose first attempt(s) raise and a later one succeeds
+        strict = True
+        retry = rng.choice([None, 2, 3, 3])
+        if retry and calls:
+            consumers = [nd["id"] for nd in spec["nodes"] if nd["kind"] == "call" and (nd["args"] or nd["kwargs"])]
+            pool = consumers if consumers and rng.random() < 0.85 else calls
+            flaky = {str(i): rng.randint(1, retry - 1) for i in rng.sample(pool, min(len(pool), rng.choice([1, 2, 3])))}
+    return {"spec": spec, "output": out, "registered": reg, "strict": strict, "retry": retry, "flaky": flaky,
             "workers": 1 if mode == "real1" else rng.choice([1, 2, 3, 4]), "mode": mode,
             "scheduler": rng.choice(["default", "random"]), "failing": failing,
             "max_errors": rng.choice([None, None, None, 0, 1, 3]) if failing else 0}
@@ -152,6 +169,8 @@ def build(case, refs, rec):
         raise ValueError(ref)
 
     failing = set(case.get("failing", ()))
+    flaky = {int(k): v for k, v in (case.get("flaky") or {}).items()}
+    attempts = {}
 
     def make_fn(i):
         def fn(*args, **kwargs):
@@ -159,6 +178,9 @@ def build(case, refs, rec):
             plans._yield()
             if i in failing:
                 raise plans.Failure("call %d" % i)
+            if attempts.get(i, 0) < flaky.get(i, 0):
+                attempts[i] = attempts.get(i, 0) + 1
+                raise plans.Failure("call %d, attempt %d" % (i, attempts[i]))
             r = Res("c%d" % i)
             refs[r.vid] = weakref.ref(r)
             return r
@@ -187,15 +209,18 @@ def build(case, refs, rec):
 class Observer:
     """Wraps the function `run_physical` hands to the engine; takes a census at every call start and end."""
 
-    def __init__(self, refs):
+    def __init__(self, refs, strict=False):
         self.refs = refs
+        self.strict = strict
+        self.pins = {}         # strict mode: vid -> who refers to a result that should be gone (taken before any collection)
         self.lock = threading.Lock()
         self.log = []          # (kind, k, ended(list), census(sorted vids), emptied entries(sorted idx))
         self.model = None
         self.struct_errors = []
 
     def census(self):
-        gc.collect()
+        if not self.strict:
+            gc.collect()
         return sorted(v for v, r in self.refs.items() if r() is not None)
 
     def describe(self, graph, process):
@@ -283,14 +308,51 @@ class Observer:
         with self.lock:
             m = self.model
             emptied = sorted(m["idx"][n] for n, s in m["lookup"].items() if s.value is None)
-            self.log.append((kind, k, (list(self.ended), list(self.failed)), self.census(), emptied))
+            census = self.census()
+            fin = (list(self.ended), list(self.failed))
+            if self.strict and not self.pins:
+                on = self.holder.get("output_node")
+                want = oracle_live(m, m["idx"].get(on) if on is not None else None, fin)
+                extra = set(census) - {m["vid"][i] for i in want if i in m["vid"]}
+                for v in sorted(extra):
+                    self.pins[v] = who_refers(self.refs[v]())
+            self.log.append((kind, k, fin, census, emptied))
+
+
+def who_refers(obj, depth=7, limit=400):
+    """Frames (file:function) and types on the referrer paths to `obj`, taken before any cyclic collection."""
+    import sys
+    import types
+    skip = {id(sys._getframe(0)), id(sys._getframe(1)), id(sys._getframe(2))}
+    seen, todo, out = {id(obj)}, [(obj, 0)], []
+    while todo and len(seen) < limit:
+        o, d = todo.pop(0)
+        if d >= depth:
+            continue
+        for r in gc.get_referrers(o):
+            if id(r) in seen or id(r) in skip or r is todo or r is seen:
+                continue
+            seen.add(id(r))
+            if isinstance(r, types.FrameType):
+                fn = r.f_code.co_filename
+                tag = "frame %s:%s" % ("/".join(fn.split("/")[-2:]), r.f_code.co_name)
+                if "harness" in fn:
+                    continue
+            else:
+                tag = type(r).__name__
+            if tag not in out:
+                out.append(tag)
+            todo.append((r, d + 1))
+    del todo
+    return out[:14]
 
 
 def run_case(case, seed):
     refs, rec = {}, plans.Rec()
     plan, registry, output = build(case, refs, rec)
-    obs = Observer(refs)
+    obs = Observer(refs, strict=bool(case.get("strict")))
     holder = {}     # the output node run_physical is given (captured from its call of prep_run_physical)
+    obs.holder = holder
 
     def thunk():
         cur = rp.run_function_on_graph
@@ -303,11 +365,16 @@ def run_case(case, seed):
 
         rp.prep_run_physical = prep
         try:
-            return uberjob.run(plan, output=output, registry=registry, max_workers=case["workers"],
+            if obs.strict:
+                gc.collect()
+                gc.disable()
+            return uberjob.run(plan, output=output, registry=registry, max_workers=case["workers"], retry=case.get("retry"),
                                scheduler=case["scheduler"], progress=None, max_errors=case.get("max_errors", 0))
         finally:
             rp.run_function_on_graph = cur
             rp.prep_run_physical = orig_prep
+            if obs.strict:
+                gc.enable()
 
     class R:
         pass
@@ -326,6 +393,7 @@ def run_case(case, seed):
     else:
         r = coop.run_controlled(thunk, seed, mode="prim", snapshots=False)
     r.obs, r.refs, r.holder = obs, refs, holder
+    obs.holder = None
     # uberjob caches inspect.signature per function (lru_cache(4096)); that keeps every generated call function alive
     # and makes each gc.collect() of the census slower and slower - drop it between cases (harness-side only)
     from uberjob._util import validation
@@ -420,8 +488,12 @@ def judge(case, r, driver):
         want_v = sorted(tracked[i] for i in want if i in tracked)
         extra = sorted(set(census) - set(want_v))
         if extra:
+            pin = ""
+            if obs.strict:
+                pin = (" [no cyclic collection ran (gc disabled, retry=%r, flaky=%r); referred to by: %s]"
+                       % (case.get("retry"), case.get("flaky"), "; ".join(obs.pins.get(extra[0], []))))
             viol.append(f"at {kind} of node {k} (returned {ok}, raised {failed}): results {extra} are still alive although "
-                        f"they and all their consumers have finished and they are not part of the output")
+                        f"they and all their consumers have finished and they are not part of the output" + pin)
         if sorted(emptied) != sorted(set(ok) | set(failed)):
             dis.append(f"at {kind} of node {k}: emptied lookup entries {emptied} != finished calls {sorted(set(ok) | set(failed))}")
         st["released_before_end"] += sum(1 for i in ok if i in tracked and tracked[i] not in census)
@@ -518,7 +590,8 @@ def explore(ctx):
     cov = {"programs": 0, "censuses": 0, "coop_runs": 0, "real_single_worker_runs": 0, "with_registry": 0,
            "failing_runs": 0, "failed_calls_observed": 0, "results_released_by_a_failing_last_consumer": 0,
            "output_none": 0, "output_structure": 0, "max_live_at_once": 0, "released_before_end_observations": 0,
-           "calls_observed": 0, "rule": "weakref census after gc.collect() at every call start/end == Lean Refs live set "
+           "calls_observed": 0, "rule": "weakref census after gc.collect() at every call start/end (a third of the runs: with the cyclic collector "
+           "disabled and no collection at all, integer retry and calls whose first attempts raise) == Lean Refs live set "
            "(driver c16); emptied lookup entries == finished calls; BoundCall slots == model edges",
            "samples": []}
     distinct = set()
@@ -538,6 +611,8 @@ def explore(ctx):
             cov["real_single_worker_runs"] += case["mode"] == "real1"
             cov["with_registry"] += bool(case["registered"])
             cov["failing_runs"] += bool(case["failing"])
+            cov["strict_runs_no_cyclic_gc"] = cov.get("strict_runs_no_cyclic_gc", 0) + bool(case.get("strict"))
+            cov["strict_runs_with_retry_and_flaky_calls"] = cov.get("strict_runs_with_retry_and_flaky_calls", 0) + bool(case.get("flaky"))
             cov["failed_calls_observed"] += st["failed_calls"]
             cov["results_released_by_a_failing_last_consumer"] += st["released_by_failed_consumer"]
             cov["output_none"] += case["output"] is None
